@@ -86,6 +86,8 @@ def main():
         ctx = core.Ctx(pid, args.tier, seed, shard=k, nshards=n)
         try:
             mod.run(ctx)
+            if k == 0:
+                ctx.replay_known_findings()
         except Exception:
             traceback.print_exc()
             return 2
@@ -103,6 +105,7 @@ def main():
         ctx = core.Ctx(pid, args.tier, seed)
         try:
             mod.run(ctx)
+            ctx.replay_known_findings()
         except Exception:
             traceback.print_exc()
             print(f"HARNESS-ERROR property={pid}")
@@ -153,6 +156,8 @@ def main():
     for (c, k), (n, ex) in sorted(merged["known_seen"].items()):
         e = known.get((c, k), {})
         print(f"KNOWN-FINDING: property={pid} {e.get('what', c + ' ' + k)} [clause={c} key={k} seen={n}]")
+    for nr in cov.get("known_findings_not_reproduced", []):
+        print(f"NOTE: listed known finding did not reproduce from its stored input: {nr}")
     rc = 0
     for v in merged["violations"]:
         print(f"  violation clause={v['clause']} key={v['key']}: {v['message'][:600]}")
